@@ -56,6 +56,7 @@ def denote(vocab, ctx, s):
     sep = ctx['rawd']['sep']
     leaf_keys = dict(ctx['rawd']['leaf_keys'])
     narrowing = dict(ctx['rawd']['base_narrowing'])
+    leaf_names = set(leaf_keys.values()) | set(ctx['rawd'].get('leaf_default') or [])
     if '?' in s:
         body, q = s.split('?', 1)
     else:
@@ -80,7 +81,7 @@ def denote(vocab, ctx, s):
             seg_alts.append([g])
     q_alts = []
     for k, val in pairs:
-        if k == 'ext' and val:
+        if k in leaf_names and val:
             val = ','.join(expand_alias(vocab, val))
         q_alts.append([(k, x) for x in val.split(',')] if ',' in val else [(k, val)])
     results = {}
@@ -157,7 +158,7 @@ def make_search(rng, vocab, t):
         pairs = []
         for _ in range(nf):
             r = rng.random()
-            k = rng.choice(keys) if r < 0.6 else rng.choice(vocab.all_keys() + ['foo'])
+            k = rng.choice(keys) if r < 0.5 else (vocab.types[t][-1][0] if r < 0.62 else rng.choice(vocab.all_keys() + ['foo']))
             exprs = [e for tt in vocab.order for kk, e in vocab.types[tt] if kk == k]
             r2 = rng.random()
             if exprs and r2 < 0.5:
@@ -166,7 +167,7 @@ def make_search(rng, vocab, t):
                 vals = vocab.concrete_values(rng.choice(exprs), rng)
                 val = ','.join(vals[:2]) if len(vals) > 1 else vals[0]
             elif r2 < 0.75:
-                val = rng.choice(['maya', 'movie', 'cache', 'ma,mb', '*', '>'])
+                val = rng.choice(list(vocab.alias) + ['ma,mb', '*', '>', ','.join(list(vocab.alias)[:2])])
             elif r2 < 0.9:
                 val = rng.choice(gen.OPEN_VALUES)
             else:
